@@ -32,7 +32,10 @@ EXTENDS Integers, Sequences, FiniteSets, TLC
 CONSTANTS MaxTop,      \* bound on the size of the range in bytes
           MaxBlocks, MaxSubs, MaxStmts,   \* bounds on the structure
           MaxNotes, MaxDirs,              \* bounds on the annotations
+          MaxNons,                        \* bound on the number of non-entry blocks
           WordCounts,                     \* numbers of word tokens a comment may have
+          GenBlockTypes,                  \* entry types offered to the generator (a subset of BlockTypes)
+          Rich,                           \* TRUE: the full statement universe; FALSE: two statements per type
           Phased                          \* TRUE: annotate only finished structures (used for generation)
 
 VARIABLES blocks, subs, notes, dirs, igs, nons, top, ntok, closed
@@ -69,8 +72,15 @@ WStmts == {Data(<<P(2, b)>>) : b \in Bases} \cup {Data(<<P(4, "n")>>), Data(<<P(
 \* DEFS: size in base sb; optional value base (part of length 0)
 SStmts == {Stmt(n, 0, "", <<P(n, sb)>>) : n \in {1, 2, 5}, sb \in {"n", "b", "d", "h"}}
           \cup {Stmt(n, 0, "", <<P(n, sb), P(0, vb)>>) : n \in {1, 3}, sb \in {"n", "h"}, vb \in Bases}
-StmtsOf(ty) == CASE ty = "C" -> CodeStmts [] ty = "B" -> BStmts [] ty = "T" -> TStmts [] ty = "W" -> WStmts
-                 [] ty = "S" -> SStmts [] OTHER -> {}
+AllStmtsOf(ty) == CASE ty = "C" -> CodeStmts [] ty = "B" -> BStmts [] ty = "T" -> TStmts [] ty = "W" -> WStmts
+                    [] ty = "S" -> SStmts [] OTHER -> {}
+FewStmtsOf(ty) == CASE ty = "C" -> {Stmt(1, 0, "", <<>>), Stmt(2, 1, "h", <<>>)}
+                    [] ty = "B" -> {Data(<<P(1, "n")>>), Data(<<P(1, "d"), P(1, "h")>>)}
+                    [] ty = "T" -> {Data(<<P(1, "c")>>), Data(<<P(2, "c"), P(1, "n")>>)}
+                    [] ty = "W" -> {Data(<<P(2, "n")>>)}
+                    [] ty = "S" -> {Stmt(1, 0, "", <<P(1, "n")>>), Stmt(1, 0, "", <<P(1, "h"), P(0, "c")>>)}
+                    [] OTHER -> {}
+StmtsOf(ty) == IF Rich THEN AllStmtsOf(ty) ELSE FewStmtsOf(ty)
 
 RECURSIVE SumN(_)
 SumN(q) == IF q = <<>> THEN 0 ELSE Head(q).n + SumN(Tail(q))
@@ -78,8 +88,10 @@ SubLen(sb) == IF sb.ty = "I" THEN sb.n ELSE SumN(sb.stmts)
 SubEnd(sb) == sb.a + SubLen(sb)
 
 \* ---- comments -------------------------------------------------------------------------------
-TextShapes == {"plain", "plain", "long", "open-first", "close-last", "both", "nested", "mid-pair", "open-mid",
-               "close-mid", "more-open", "more-close", "lone-open", "lone-close"}
+\* "brace": braces on the words of the text in one of the positions the skool format allows - every '{' before
+\* every '}': open-first, close-last, both, nested, mid-pair, open-mid, close-mid, more-open, more-close,
+\* lone-open, lone-close (the harness picks the variant)
+TextShapes == {"plain", "brace"}
 BlankShapes == {"blank", "dot", "dots"}            \* instruction-level comments over >= 2 statements only
 Cm(nw, nl, sh, dot) == [t0 |-> ntok, nw |-> nw, nl |-> nl, sh |-> sh, dot |-> dot]
 NoteKinds == {"title", "D", "R", "N", "E", "I", "M"}
@@ -138,7 +150,7 @@ Note(k, a, cm) == [k |-> k, a |-> a, e |-> 0, cm |-> cm, head |-> ""]
 \* title / description paragraph / start or mid-block comment paragraph / end comment paragraph
 AddComment(k, a, nw, nl, sh, dot) ==
   /\ Len(notes) < MaxNotes /\ nw \in WordCounts /\ nl \in 1..2 /\ nl <= nw /\ (nl = 1 \/ dot = 1)
-  /\ k \in {"title", "D", "N", "E"} /\ sh \in {"plain", "long", "both"}
+  /\ k \in {"title", "D", "N", "E"} /\ sh \in TextShapes
   /\ IF k = "N" THEN a \in SubStarts /\ ~StrictlyInsideM(a) /\ subs[SubAt(a)].ty # "I"
      ELSE a \in BlockStarts
   /\ k = "title" => NotesAt("title", a) = {}
@@ -187,8 +199,9 @@ DirKinds == {"label", "keep", "nowarn", "ssub", "isub", "rsub", "ofix", "bfix", 
 EntryDirKinds == {"assemble", "equ", "set", "org", "start", "end", "replace", "writer", "defb", "defw", "defs", "expand",
                   "remote", "if", "bank", "rom"}
 
+\* k: "entry" (a kind of EntryDirKinds) or "instr" (any other kind); the harness picks the kind and its value
 AddDirective(a, k) ==
-  /\ Len(dirs) < MaxDirs /\ a \in StmtStarts /\ k \in DirKinds
+  /\ Len(dirs) < MaxDirs /\ a \in StmtStarts /\ k \in {"entry", "instr"}
   /\ notes' = notes /\ dirs' = Append(dirs, [a |-> a, k |-> k, id |-> ntok + 1])
   /\ ntok' = ntok + 1
   /\ UNCHANGED <<blocks, subs, igs, nons, top, closed>>
@@ -208,12 +221,12 @@ AddIgnore(a, t, sfx) ==
 
 \* non-entry blocks: header lines of any entry; footer lines of the last entry of a finished document
 AddHeader(a, nl) ==
-  /\ Len(nons) < 4 /\ a \in BlockStarts /\ nl \in 1..2
+  /\ Len(nons) < MaxNons /\ a \in BlockStarts /\ nl \in 1..2
   /\ nons' = Append(nons, [a |-> a, foot |-> 0, nl |-> nl, t0 |-> ntok])
   /\ ntok' = ntok + nl
   /\ UNCHANGED <<blocks, subs, notes, dirs, igs, top, closed>>
 AddFooter(nl) ==
-  /\ closed /\ Len(nons) < 4 /\ nl \in 1..2 /\ blocks[Len(blocks)].ty # "i"
+  /\ closed /\ Len(nons) < MaxNons /\ nl \in 1..2 /\ blocks[Len(blocks)].ty # "i"
   /\ nons' = Append(nons, [a |-> blocks[Len(blocks)].a, foot |-> 1, nl |-> nl, t0 |-> ntok])
   /\ ntok' = ntok + nl
   /\ UNCHANGED <<blocks, subs, notes, dirs, igs, top, closed>>
@@ -225,23 +238,21 @@ Finish == /\ ~closed /\ blocks # <<>> /\ closed' = TRUE
 \* comment layouts offered to the generator: <<words, lines, dot form>> (a multi-line layout needs the dot form)
 Layouts == {<<nw, 1, 0>> : nw \in WordCounts} \cup {<<nw, 1, 1>> : nw \in WordCounts}
            \cup {<<nw, nl, 1>> : nw \in WordCounts \ {1}, nl \in {2}} \cup {<<nw, 3, 1>> : nw \in WordCounts \ {1, 2}}
-ILayouts == {<<sh, ly>> : sh \in TextShapes, ly \in {<<nw, 1, 0>> : nw \in WordCounts}}
-            \cup {<<"plain", ly>> : ly \in Layouts} \cup {<<"both", ly>> : ly \in Layouts}
-            \cup {<<sh, <<0, 1, 0>>>> : sh \in BlankShapes}
+ILayouts == {<<sh, ly>> : sh \in TextShapes, ly \in Layouts} \cup {<<sh, <<0, 1, 0>>>> : sh \in BlankShapes}
 SubEnds == {SubEnd(subs[j]) : j \in 1..Len(subs)}
 
-Build == \/ \E s \in 1..3 : AddBlock("i", "I", s)
-         \/ \E bt \in BlockTypes \ {"i"} : \E st \in {DefaultSub(bt), "B", "C"} : \E s \in StmtsOf(st) : AddBlock(bt, st, s)
+Build == \/ ("i" \in GenBlockTypes /\ \E s \in 1..3 : AddBlock("i", "I", s))
+         \/ \E bt \in GenBlockTypes \ {"i"} : \E st \in {DefaultSub(bt), "B", "C"} : \E s \in StmtsOf(st) : AddBlock(bt, st, s)
          \/ \E st \in SubTypes : \E s \in StmtsOf(st) : AddSubBlock(st, s)
          \/ (subs # <<>> /\ \E s \in StmtsOf(subs[Len(subs)].ty) : SetLengths(s))
          \/ Finish
 Annotate ==
-         \/ \E k \in {"title", "D", "N", "E"}, a \in BlockStarts \cup SubStarts, ly \in Layouts, sh \in {"plain", "long", "both"} :
+         \/ \E k \in {"title", "D", "N", "E"}, a \in BlockStarts \cup SubStarts, ly \in Layouts, sh \in TextShapes :
               AddComment(k, a, ly[1], ly[2], sh, ly[3])
          \/ \E a \in BlockStarts, h \in RegHeads, nw \in WordCounts \cup {0} : AddRegister(a, h, nw)
          \/ \E a \in SubStarts, il \in ILayouts : AddInstrComment(a, il[2][1], il[2][2], il[1], il[2][3])
          \/ \E a \in SubStarts, e \in SubEnds, il \in ILayouts : AddMultiLine(a, e, il[2][1], il[2][2], il[1], il[2][3])
-         \/ \E a \in StmtStarts, k \in DirKinds : AddDirective(a, k)
+         \/ \E a \in StmtStarts, k \in {"entry", "instr"} : AddDirective(a, k)
          \/ \E a \in StmtStarts \cup BlockStarts, t \in {"t", "d", "r", "m", "e", "i"}, sfx \in 0..2 : AddIgnore(a, t, sfx)
          \/ \E a \in BlockStarts, nl \in 1..2 : AddHeader(a, nl)
          \/ \E nl \in 1..2 : AddFooter(nl)
